@@ -23,6 +23,18 @@
 (* hops, each hop one action; the environment (answers, connection loss,     *)
 (* pool shutdown, client timeout) acts between them.                         *)
 (*                                                                           *)
+(* Stream ids.  cfg.ids is the size of the id space of every pool connection *)
+(* (0 = the driver's default, ids not observed; 1, 2 = a space so small that *)
+(* ids wrap at once and the EXECUTE, the PREPARE and the re-sent EXECUTE get *)
+(* stream id 0 in some behaviours).  Connection.get_request_id takes the head *)
+(* of a FIFO deque, process_msg appends the id after the callback ran.  No   *)
+(* decision of the re-prepare path may depend on the id a request was given; *)
+(* the only place an id matters is _on_timeout, which removes the handler    *)
+(* registered under ResponseFuture._req_id (the id of the last request sent  *)
+(* by send_request) - with a tiny id space that is the PREPARE's handler,    *)
+(* and the late answer is then dropped as an orphan.                         *)
+(*   connection.py  Connection.get_request_id, process_msg   (NextId, Release) *)
+(*                                                                           *)
 (* The module describes the behaviour the property demands.  Where the       *)
 (* pinned code deviates this is said at the action (see RunAfter, "diff").   *)
 EXTENDS Integers, Sequences, FiniteSets, TLC
@@ -37,17 +49,21 @@ Pos(h) == CHOOSE i \in 1..Len(Hosts) : Hosts[i] = h
 VARIABLES cfg,     \* [pv: protocol version, sks: keyspace of the statement, cks: keyspace of the session's connections]
           plan,    \* hosts of the query plan not yet taken (ResponseFuture.query_plan iterator)
           sent,    \* every PREPARE / EXECUTE frame the nodes received for this execution, in order
-          srv,     \* requests a node still owes an answer to: [h, kind, n] (n = index in sent)
+          srv,     \* requests a node still owes an answer to: [h, kind, n (index in sent), sid (stream id),
+                   \*   live (its handler is still registered in Connection._requests)]
           queue,   \* executor tasks of this future not yet run: [t: "reprepare" | "after", h, resp]
           final,   \* "unset" | "rows" | name of the exception class the future failed with
           pool,    \* per host: "ok" | "shutdown" | "noconn"  (can a connection be borrowed?)
           unprep,  \* UNPREPARED answers so far
           timer,   \* "none" | "armed" | "off"   (client request timeout)
+          free,    \* per host: Connection.request_ids (FIFO of reusable stream ids), when cfg.ids # 0
+          hi,      \* per host: Connection.highest_request_id
+          rid,     \* ResponseFuture._req_id: stream id of the last request sent by send_request (-1: none / not observed)
           stop,    \* ghost: Len(sent) when the request failed with id mismatch / keyspace mismatch, else -1
           act      \* last action
-vars == <<cfg, plan, sent, srv, queue, final, pool, unprep, timer, stop, act>>
+vars == <<cfg, plan, sent, srv, queue, final, pool, unprep, timer, free, hi, rid, stop, act>>
 
-Configs == [pv : {4, 5}, sks : {"none", "ks"}, cks : {"none", "ks", "ks2"}]
+Configs == [pv : {4, 5}, sks : {"none", "ks"}, cks : {"none", "ks", "ks2"}, ids : {0, 1, 2}]
 
 Exec(h) == [h |-> h, kind |-> "EXECUTE", q |-> "id", ks |-> "none"]
 \* same query text; the keyspace travels in the PREPARE iff the protocol carries it (v5)
@@ -61,10 +77,24 @@ FirstUsable(p) == IF p = <<>> THEN 0
                   ELSE IF pool[Head(p)] = "ok" THEN 1
                   ELSE LET r == FirstUsable(Tail(p)) IN IF r = 0 THEN 0 ELSE r + 1
 
-(* ResponseFuture._query(host) with the original message: borrow, send_msg *)
+(* Connection.get_request_id: head of the deque, a fresh id when it is empty *)
+NextId(h) == IF cfg.ids = 0 THEN -1 ELSE IF free[h] # <<>> THEN Head(free[h]) ELSE hi[h] + 1
+Base(m) == [h |-> m.h, kind |-> m.kind, q |-> m.q, ks |-> m.ks]
+
+(* ResponseFuture._query(host, message): borrow a stream id, send_msg *)
 SendTo(h, msg) ==
-    /\ sent' = Append(sent, msg)
-    /\ srv' = srv \cup {[h |-> h, kind |-> msg.kind, n |-> Len(sent) + 1]}
+    LET sid == NextId(h) IN
+    /\ sent' = Append(sent, [h |-> h, kind |-> msg.kind, q |-> msg.q, ks |-> msg.ks, sid |-> sid])
+    /\ srv' = srv \cup {[h |-> h, kind |-> msg.kind, n |-> Len(sent) + 1, sid |-> sid, live |-> TRUE]}
+    /\ free' = IF cfg.ids = 0 \/ free[h] = <<>> THEN free ELSE [free EXCEPT ![h] = Tail(@)]
+    /\ hi' = IF cfg.ids # 0 /\ free[h] = <<>> THEN [hi EXCEPT ![h] = @ + 1] ELSE hi
+NoSend == UNCHANGED <<sent, srv, free, hi>>
+
+(* Connection.process_msg: the answered stream id goes back to the end of the deque *)
+Answered(r) ==
+    /\ srv' = srv \ {r}
+    /\ free' = IF cfg.ids = 0 THEN free ELSE [free EXCEPT ![r.h] = Append(@, r.sid)]
+    /\ UNCHANGED <<sent, hi, rid>>
 
 (* ResponseFuture.send_request: next host of the plan whose pool yields a connection, else NoHostAvailable *)
 SendRequest ==
@@ -73,9 +103,11 @@ SendRequest ==
     THEN /\ plan' = <<>>
          /\ final' = "NoHostAvailable"
          /\ timer' = "off"
-         /\ UNCHANGED <<sent, srv>>
+         /\ NoSend
+         /\ UNCHANGED rid
     ELSE /\ plan' = SubSeq(plan, k + 1, Len(plan))
          /\ SendTo(plan[k], Exec(plan[k]))
+         /\ rid' = NextId(plan[k])                      \* self._req_id = req_id
          /\ UNCHANGED <<final, timer>>
 
 InitWith(c) ==
@@ -86,6 +118,9 @@ InitWith(c) ==
     /\ pool = [h \in HostSet |-> "ok"]
     /\ unprep = 0
     /\ timer = "none"
+    /\ free = [h \in HostSet |-> [i \in 1..c.ids |-> i - 1]]
+    /\ hi = [h \in HostSet |-> c.ids - 1]
+    /\ rid = -1
     /\ stop = -1
     /\ act = [name |-> "Init", h |-> "-", resp |-> "-", was |-> "unset", n |-> 0, pok |-> TRUE]
 
@@ -98,6 +133,7 @@ Start ==
        /\ k # 0
        /\ plan' = SubSeq(plan, k + 1, Len(plan))
        /\ SendTo(plan[k], Exec(plan[k]))
+       /\ rid' = NextId(plan[k])
     /\ timer' = "armed"
     /\ act' = A("Start", "-", "-")
     /\ UNCHANGED <<cfg, queue, final, pool, unprep, stop>>
@@ -107,7 +143,7 @@ AnsUnprepared(r) ==
     /\ r \in srv /\ r.kind = "EXECUTE"
     /\ unprep < MaxUnprep
     /\ ~Failed
-    /\ srv' = srv \ {r}
+    /\ Answered(r)
     /\ unprep' = unprep + 1
     /\ IF cfg.pv < 5 /\ cfg.sks # "none" /\ cfg.cks # cfg.sks
        THEN \* the protocol cannot carry the keyspace and the connection is in another one: ValueError, nothing sent
@@ -118,17 +154,17 @@ AnsUnprepared(r) ==
        ELSE /\ queue' = Append(queue, [t |-> "reprepare", h |-> r.h, resp |-> "-"])
             /\ UNCHANGED <<final, timer, stop>>
     /\ act' = A("AnsUnprepared", r.h, "-")
-    /\ UNCHANGED <<cfg, plan, sent, pool>>
+    /\ UNCHANGED <<cfg, plan, pool>>
 
 (* a node answers the EXECUTE with rows *)
 AnsRows(r) ==
     /\ r \in srv /\ r.kind = "EXECUTE"
     /\ ~Failed
-    /\ srv' = srv \ {r}
+    /\ Answered(r)
     /\ final' = "rows"
     /\ timer' = "off"
     /\ act' = A("AnsRows", r.h, "-")
-    /\ UNCHANGED <<cfg, plan, sent, queue, pool, unprep, stop>>
+    /\ UNCHANGED <<cfg, plan, queue, pool, unprep, stop>>
 
 (* executor: ResponseFuture._reprepare - PREPARE to the same host on a newly borrowed stream *)
 RunReprepare ==
@@ -136,7 +172,7 @@ RunReprepare ==
     /\ LET h == Head(queue).h IN
        /\ IF pool[h] = "ok"
           THEN /\ SendTo(h, Prep(h))
-               /\ UNCHANGED <<plan, final, timer>>
+               /\ UNCHANGED <<plan, final, timer, rid>>
           ELSE SendRequest                          \* no connection to that host: original request to the next host
        /\ act' = [A("RunReprepare", h, "-") EXCEPT !.pok = (pool[h] = "ok")]
     /\ queue' = Tail(queue)
@@ -146,19 +182,20 @@ RunReprepare ==
 (* loop thread: the callback only submits _execute_after_prepare                                             *)
 AnsPrepare(r, kind) ==
     /\ r \in srv /\ r.kind = "PREPARE"
-    /\ srv' = srv \ {r}
-    /\ queue' = Append(queue, [t |-> "after", h |-> r.h, resp |-> kind])
+    /\ Answered(r)
+    /\ queue' = IF r.live THEN Append(queue, [t |-> "after", h |-> r.h, resp |-> kind])
+                ELSE queue                                  \* handler removed by the timeout: the answer is an orphan
     /\ act' = A("AnsPrepare", r.h, kind)
-    /\ UNCHANGED <<cfg, plan, sent, final, pool, unprep, timer, stop>>
+    /\ UNCHANGED <<cfg, plan, final, pool, unprep, timer, stop>>
 
 (* the connection carrying the PREPARE dies: its callback gets a ConnectionException *)
 ConnLost(h) ==
-    /\ \E r \in srv : r.h = h /\ r.kind = "PREPARE"
+    /\ \E r \in srv : r.h = h /\ r.kind = "PREPARE" /\ r.live
     /\ srv' = {r \in srv : r.h # h}
     /\ queue' = Append(queue, [t |-> "after", h |-> h, resp |-> "connerr"])
     /\ pool' = [pool EXCEPT ![h] = "noconn"]
     /\ act' = A("ConnLost", h, "-")
-    /\ UNCHANGED <<cfg, plan, sent, final, unprep, timer, stop>>
+    /\ UNCHANGED <<cfg, plan, sent, final, unprep, timer, free, hi, rid, stop>>
 
 (* the host's pool is shut down while one of the two hops is pending *)
 PoolDown(h) ==
@@ -167,7 +204,7 @@ PoolDown(h) ==
     /\ \A r \in srv : r.h # h
     /\ pool' = [pool EXCEPT ![h] = "shutdown"]
     /\ act' = A("PoolDown", h, "-")
-    /\ UNCHANGED <<cfg, plan, sent, srv, queue, final, unprep, timer, stop>>
+    /\ UNCHANGED <<cfg, plan, sent, srv, queue, final, unprep, timer, free, hi, rid, stop>>
 
 (* executor: ResponseFuture._execute_after_prepare *)
 RunAfter ==
@@ -175,10 +212,11 @@ RunAfter ==
     /\ LET h == Head(queue).h
            resp == Head(queue).resp IN
        /\ IF Failed
-          THEN UNCHANGED <<plan, sent, srv, final, timer, stop>>              \* e.g. timed out meanwhile: nothing more
+          THEN NoSend /\ UNCHANGED <<plan, final, timer, rid, stop>>          \* e.g. timed out meanwhile: nothing more
           ELSE CASE resp = "same" ->
                         /\ IF pool[h] = "ok"
-                           THEN SendTo(h, Exec(h)) /\ UNCHANGED <<plan, final, timer>>     \* original request, same host
+                           THEN SendTo(h, Exec(h)) /\ UNCHANGED <<plan, final, timer, rid>>  \* original request, same host,
+                                                                                            \* whatever stream id it is given
                            ELSE SendRequest
                         /\ UNCHANGED stop
                  [] resp = "diff" ->
@@ -187,11 +225,11 @@ RunAfter ==
                         /\ final' = "DriverException"
                         /\ timer' = "off"
                         /\ stop' = Len(sent)
-                        /\ UNCHANGED <<plan, sent, srv>>
+                        /\ NoSend /\ UNCHANGED <<plan, rid>>
                  [] resp = "error" ->
                         /\ final' = "InvalidRequest"                          \* the server's error surfaces
                         /\ timer' = "off"
-                        /\ UNCHANGED <<plan, sent, srv, stop>>
+                        /\ NoSend /\ UNCHANGED <<plan, rid, stop>>
                  [] resp = "connerr" ->
                         /\ SendRequest                                        \* original request to the next host of the plan
                         /\ UNCHANGED stop
@@ -205,8 +243,11 @@ Timeout ==
     /\ \E r \in srv : r.kind = "PREPARE"
     /\ final' = "OperationTimedOut"
     /\ timer' = "off"
+    \* self._connection._requests.pop(self._req_id): _req_id is the id of the last EXECUTE sent by send_request; when
+    \* the PREPARE travels under the same id (tiny id space) it is the PREPARE's handler that goes
+    /\ srv' = {IF cfg.ids # 0 /\ r.kind = "PREPARE" /\ r.sid = rid THEN [r EXCEPT !.live = FALSE] ELSE r : r \in srv}
     /\ act' = A("Timeout", "-", "-")
-    /\ UNCHANGED <<cfg, plan, sent, srv, queue, pool, unprep, stop>>
+    /\ UNCHANGED <<cfg, plan, sent, queue, pool, unprep, free, hi, rid, stop>>
 
 Next ==
     \/ Start
@@ -255,7 +296,7 @@ SendOrder ==
 ResentOnSuccess ==
     (act.name = "RunAfter" /\ act.resp = "same" /\ act.was = "unset" /\ act.pok) =>
         /\ Len(sent) = act.n + 1
-        /\ Last(sent) = Exec(act.h)
+        /\ Base(Last(sent)) = Exec(act.h)                 \* whatever stream id it travels under
 
 \* a failed PREPARE surfaces as the request's error and nothing is sent
 PrepareErrorSurfaces ==
@@ -283,6 +324,9 @@ KeyspaceRule ==
 
 NothingAfterStop == [][stop >= 0 => sent' = sent /\ final' = final]_vars
 
+\* with one request of the execution in flight at a time the ids never leave the (shrunk) id space
+IdsInSpace == cfg.ids # 0 => \A i \in 1..Len(sent) : sent[i].sid \in 0..(cfg.ids - 1)
+
 \* vacuity witnesses (each must be violated = reachable)
 Witness_Mismatch == final # "DriverException"
 Witness_KsMismatch == final # "ValueError"
@@ -292,5 +336,8 @@ Witness_SecondRound == ~(unprep = 2 /\ final = "rows" /\ Cardinality(Preps) = 2)
 Witness_NoHost == final # "NoHostAvailable"
 Witness_LateAnswerAfterTimeout == ~(act.name = "RunAfter" /\ act.was = "OperationTimedOut")
 Witness_V5Keyspace == \A i \in Preps : sent[i].ks # "ks"
+Witness_ResendOnStreamZero == ~(act.name = "RunAfter" /\ act.resp = "same" /\ act.was = "unset" /\ Len(sent) = act.n + 1
+                                /\ Last(sent).kind = "EXECUTE" /\ Last(sent).sid = 0 /\ Len(plan) >= 1)
+Witness_TimeoutTakesPrepareHandler == \A r \in srv : r.live
 Witness_PoolDownBeforePrepare == ~(act.name = "RunReprepare" /\ ~act.pok /\ Len(sent) = act.n + 1)
 =============================================================================
